@@ -104,6 +104,17 @@ func c03Build(c *mon.Ctx) {
 			}
 		}
 	}
+	// extreme but encodable dates (GeneralizedTime): far outside every window, and outside what fits in an
+	// int64 count of nanoseconds; the result must still be NE exactly outside [effective, ineffective)
+	extreme := []time.Time{time.Date(1, 1, 1, 0, 0, 1, 0, time.UTC), time.Date(500, 6, 1, 0, 0, 0, 0, time.UTC), time.Date(1600, 1, 1, 0, 0, 0, 0, time.UTC),
+		time.Date(1677, 9, 21, 0, 12, 43, 0, time.UTC), time.Date(1677, 9, 21, 0, 12, 44, 0, time.UTC), time.Date(1969, 12, 31, 23, 59, 59, 0, time.UTC), time.Date(1970, 1, 1, 0, 0, 0, 0, time.UTC),
+		time.Date(2262, 4, 11, 23, 47, 16, 0, time.UTC), time.Date(2262, 4, 11, 23, 47, 17, 0, time.UTC), time.Date(2600, 1, 1, 0, 0, 0, 0, time.UTC), time.Date(9999, 12, 31, 23, 59, 59, 0, time.UTC)}
+	for k, idx := range []int{W.ByKind[corpus.Cert][0], W.ByKind[corpus.Cert][len(W.ByKind[corpus.Cert])/2], FamilyStart, FamilyStart + 1, FamilyStart + 3, W.ByKind[corpus.CRL][0], W.ByKind[corpus.CRL][len(W.ByKind[corpus.CRL])-1], W.ByKind[corpus.OCSP][0]} {
+		for _, t := range extreme {
+			c03Cases = append(c03Cases, c03Case{lint: k % len(Inv), base: idx, instant: t, label: "extreme", off: GenTimeForm})
+			c03Cases = append(c03Cases, c03Case{lint: k % len(Inv), base: idx, instant: t, label: "extreme", keep: true})
+		}
+	}
 	perLint := c.Pick(3, 8)
 	for li, info := range Inv {
 		bases := c03Applic[info.Name]
@@ -252,6 +263,10 @@ func init() {
 				s := mon.SnapOf(rs)
 				how := fmt.Sprintf("%s re-dated to %s of %s, offset %+d min", base.Name, cs.label, info.Name, cs.off)
 				c03JudgeAll(c, o, s, how)
+				if cs.label == "extreme" {
+					c.R.Count("extreme_date_runs", 1)
+					return
+				}
 				if st := s[info.Name].Status; st != int(lint.NA) && st != int(lint.Fatal) {
 					c.R.Distinct("boundary_judged", info.Name+"@"+cs.label)
 					enc := "Z"
